@@ -31,6 +31,13 @@ def Err.toString : Err → String
   | .badSegment => "BadSegment"
   | .layoutInvalid => "LayoutInvalid"
 
+/-- decidable equality of results (for `decide` in examples) -/
+instance decEqExcept {ε α : Type} [DecidableEq ε] [DecidableEq α] : DecidableEq (Except ε α)
+  | .ok a, .ok b => if h : a = b then isTrue (by rw [h]) else isFalse (fun h' => h (by injection h'))
+  | .error a, .error b => if h : a = b then isTrue (by rw [h]) else isFalse (fun h' => h (by injection h'))
+  | .ok _, .error _ => isFalse (fun h => by cases h)
+  | .error _, .ok _ => isFalse (fun h => by cases h)
+
 namespace Sizes
 
 /-- `div_ceil(n, d) = n//d + (n%d != 0)`; callers guard `d = 0` (ZeroDivisionError). -/
